@@ -164,6 +164,16 @@ class StmtOps:
                     ast.dump(node.value.value) == ast.dump(t.value) and ast.dump(node.value.slice) == ast.dump(t.slice):
                 return      # x[i] = x[i]: no effect (the read already carried the bounds obligation)
             if base.kind == 'dict':
+                if base.owned:
+                    for n_, (k, _) in enumerate(base.extra['items']):
+                        c = self.py_eq(idx, k)
+                        if c == TRUE:
+                            base.extra['items'][n_] = (k, v)
+                            return
+                        if c != FALSE:
+                            raise Unsupported('owned dict store with undecided key', node)
+                    base.extra['items'].append((idx, v))
+                    return
                 if base.is_const:
                     raise Unsupported('store into constant dict', node)
                 self.dict_write(base, idx, v)
@@ -245,7 +255,20 @@ class StmtOps:
             self.exec_block(node.orelse)
 
     def ex_With(self, node):
-        raise Unsupported('with statement (I/O functions are handled by effect contracts)', node)
+        """`with open(...) as f:` -- file contents are unknown strings; writes are effects (M7), no value"""
+        st = self.st
+        for item in node.items:
+            ce = item.context_expr
+            if not (isinstance(ce, ast.Call) and isinstance(ce.func, ast.Name) and ce.func.id == 'open'):
+                raise Unsupported('with statement other than open()', node)
+            for a in ce.args:
+                self.ev(a)
+            if item.optional_vars is not None:
+                if not isinstance(item.optional_vars, ast.Name):
+                    raise Unsupported('with target', node)
+                st.env[item.optional_vars.id] = SV('file', extra={})
+        self.lib_assumptions.add('open()/read(): file contents are arbitrary strings; write() has no value (effects are C14)')
+        self.exec_block(node.body)
 
     def ex_Try(self, node):
         raise Unsupported('try statement', node)
